@@ -198,6 +198,13 @@ func Thorough() bool { return NativeThorough }
 // NativeThorough is set by the replay runner from the job.
 var NativeThorough bool
 
+// Mid reports whether a thorough-tier harness runs at the intermediate bounds
+// (the engine's fallback for a variant that exceeded its budget).
+func Mid() bool { return NativeMid }
+
+// NativeMid is set by the replay runner from the job.
+var NativeMid bool
+
 // BytesTail returns n arbitrary bytes in a buffer with `tail` bytes of spare
 // capacity. Under the engine the spare bytes are poisoned (any read of them is
 // a read outside the input); natively they hold TailFill.
